@@ -30,6 +30,8 @@ type e1Space struct {
 	// Quirks lists deviant behaviours (known findings) the reference can emulate; a
 	// disagreement that disappears under exactly one of them gets that signature.
 	Quirks []string
+	// QuirkExtra replaces Extra while a quirk is evaluated (nil = use Extra).
+	QuirkExtra func(p *rj.Program, ref rj.Result, got rj.ImplResult) string
 	// ExtraP is like Extra but also receives the printer (node positions).
 	ExtraP func(p *rj.Program, pr *rj.Printer, ref rj.Result, got rj.ImplResult) string
 	// Extra is an additional oracle run on conforming cases; "" = ok.
@@ -114,13 +116,17 @@ func runSpace(r *core.Run, s *e1Space) {
 				sig = s.Classify(p, src, ref, got)
 			}
 			if sig == "" {
+				qx := s.Extra
+				if s.QuirkExtra != nil {
+					qx = s.QuirkExtra
+				}
 				for _, q := range s.Quirks {
 					p.Quirks = map[string]bool{q: true}
 					qref := rj.Eval(p)
 					p.Quirks = nil
 					// the deviation is explained by the quirk if, under it, the reference agrees with the
 					// implementation or reaches a state the property does not define (e.g. a zero divisor)
-					if qref.Unspec != "" || (rj.Compare(qref, got) == "" && (s.Extra == nil || s.Extra(p, qref, got) == "")) {
+					if qref.Unspec != "" || (rj.Compare(qref, got) == "" && (qx == nil || qx(p, qref, got) == "")) {
 						sig = q
 						break
 					}
